@@ -11,6 +11,7 @@ C19 property theorems.
   the per-hop fees and gaps.
 -/
 import LndModel.C19.ReachLemmas
+import LndModel.C19.Finality
 
 namespace LndModel.C19
 
@@ -103,6 +104,116 @@ theorem search_sound_partial (g : Graph) (r : Req) (hg : GraphOK g) {y : Entry} 
       rw [ho, Nat.add_zero, u64_of_lt (by omega)] at hr
       exact hr.symm
 
+/-! ### The search loop itself (`findPath`'s main loop, `Run`) -/
+
+/-- Pointer-chain consistency of the distance map, for every reachable state of
+    the main loop (any probability source with values in `(0,1]`, any order of
+    the incoming edges, any choice among equal heap minima) in which no stored
+    entry was computed with an overflowing `edgeWeight`: following `nextHop`
+    from any node `v` of the map reaches the target over edges `E`, and each
+    entry on the way is what `getEdge` + `processEdge` compute from the entry
+    of its successor AS IT IS NOW STORED (`Link`; in particular a `Reach`). -/
+theorem pointer_chain_consistent (A : ProbAlg) (hA : A.Lawful) (g : Graph) (r : Req) (c : SCfg)
+    (hg : GraphOK g) {s : SState A.P} (hrun : Run A g r c s) (hw : s.wrapped = false)
+    {v : Nat} {x : NodeEnt A.P} (hv : getD s.D v = some x) :
+    ∃ E, Link g r s.D s.opn v x E ∧ Reach g r v x.ent E ∧
+      walk s.D r.target E.length v = some E := by
+  obtain ⟨E, hl⟩ := (run_inv hA hg hrun hw).link v x hv
+  exact ⟨E, hl, link_reach hl, link_walk_total hl⟩
+
+/-- Dijkstra finality, derived (not assumed): in every reachable state a
+    `processEdge` call never replaces the entry of an expanded node (a node of
+    the distance map that is no longer on the heap).  Uses: accumulated weight
+    does not decrease (`edgeWeight ≥ 0` because the fee is floored at zero and no
+    int64 overflow happened), edge probabilities are at most one, the distance
+    function is monotone, and `heap.Pop` returns a `Less`-minimal element. -/
+theorem expanded_entry_final (A : ProbAlg) (hA : A.Lawful) (g : Graph) (r : Req) (c : SCfg)
+    (hg : GraphOK g) {s : SState A.P} (hrun : Run A g r c s) (u : Nat) (ep : A.P)
+    (hep : A.valid ep = true) (hw : (relaxStep A g r c s u ep).wrapped = false)
+    {v : Nat} {x : NodeEnt A.P} (hv : getD s.D v = some x) (hclosed : v ∉ s.opn) :
+    getD (relaxStep A g r c s u ep).D v = some x ∧ v ∉ (relaxStep A g r c s u ep).opn := by
+  rcases relaxStep_spec A g r c s u ep with h | ⟨e, y, he, hy, hb, heq⟩
+  · rw [h]; exact ⟨hv, hclosed⟩
+  · rw [heq] at hw ⊢
+    have hw' : (s.wrapped || !weightFits s.pv.weight (sendAmt e s.pv.ent) (relFee e s.pv.ent y)
+        (r.dlOf e)) = false := hw
+    simp only [Bool.or_eq_false_iff, Bool.not_eq_false'] at hw'
+    have hI := run_inv hA hg hrun hw'.1
+    obtain ⟨_, _, _, _, _, _, _, hopen⟩ := relax_facts hA hI he hep hw'.2 hb
+    have hvu : v ≠ u := by
+      intro h
+      subst h
+      exact hclosed (hopen x hv)
+    refine ⟨by rw [storeState_D, getD_cons_ne _ _ hvu]; exact hv, ?_⟩
+    intro hmem
+    rcases (storeState_mem s u _ _ v).mp hmem with h | h
+    · exact hvu h
+    · exact hclosed h
+
+/-- Soundness of the search, with NO finality hypothesis: whatever the
+    reconstruction loop (`walk`: follow `nextHop` from the source) returns in
+    any reachable state of the main loop is a chain for which `newRoute`
+    succeeds, the route satisfies the complete property `RouteValid`, and its
+    total amount is the amount stored for the source.  Remaining hypotheses:
+    `Fits` (no uint64/int64 overflow in `newRoute`'s fee arithmetic along the
+    returned chain — necessary, see `fee_wrap_violates_*`) and
+    `s.wrapped = false` (no int64 overflow of `edgeWeight` / accumulated weight
+    in an entry stored during this search; it needs amount·delta·15 ≥ 2^63). -/
+theorem search_sound (A : ProbAlg) (hA : A.Lawful) (g : Graph) (r : Req) (c : SCfg)
+    (hg : GraphOK g) {s : SState A.P} (hrun : Run A g r c s) (hw : s.wrapped = false)
+    {fuel : Nat} {E : List UEdge} (hE : walk s.D r.target fuel r.source = some E)
+    (hf : Fits r.height r.amt r.finalDelta E) :
+    ∃ x rt, getD s.D r.source = some x ∧
+      newRoute r.source E r.height r.amt r.finalDelta = some rt ∧ RouteValid g r rt ∧
+      rt.totalAmt = x.ent.recv := by
+  cases fuel with
+  | zero => simp [walk] at hE
+  | succ n =>
+    cases hx : getD s.D r.source with
+    | none => simp [walk, hx] at hE
+    | some x =>
+      obtain ⟨E', hl⟩ := (run_inv hA hg hrun hw).link _ x hx
+      have hEE := link_walk hl _ _ hE
+      subst hEE
+      obtain ⟨E'', hE'', _⟩ := link_head hl
+      obtain ⟨rt, h1, h2, h3⟩ := search_sound_partial g r hg (link_reach hl)
+        (by rw [hE'']; exact List.cons_ne_nil _ _) (link_tail_src hl) hf
+      exact ⟨x, rt, rfl, h1, h2, h3⟩
+
+/-- A lawful probability algebra (fixed point, parts per million; attempt cost
+    `pen`, minimum probability `minp`): the hypotheses `ProbAlg.Lawful` are
+    satisfiable. -/
+def fixAlg (pen minp : Nat) : ProbAlg :=
+  { P := Nat, le := fun p q => decide (p ≤ q), mul := fun p q => p * q / 1000000, one := 1000000,
+    dist := fun w p => w + ((pen * 1000000 / max p 1 : Nat) : Int),
+    valid := fun p => decide (0 < p) && decide (p ≤ 1000000),
+    minOk := fun p => decide (minp ≤ p) }
+
+theorem fixAlg_lawful (pen minp : Nat) : (fixAlg pen minp).Lawful := by
+  refine ⟨?_, ?_, ?_, ?_, ?_⟩
+  · intro p q
+    simp only [fixAlg, decide_eq_true_eq]
+    omega
+  · intro p q s
+    simp only [fixAlg, decide_eq_true_eq]
+    omega
+  · intro p q hq
+    simp only [fixAlg, Bool.and_eq_true, decide_eq_true_eq] at hq ⊢
+    apply Nat.div_le_of_le_mul
+    rw [Nat.mul_comm 1000000 p]
+    exact Nat.mul_le_mul_left p hq.2
+  · intro w w' (p : Nat) (p' : Nat) hw hp
+    simp only [fixAlg, decide_eq_true_eq] at hp ⊢
+    have : pen * 1000000 / max p 1 ≤ pen * 1000000 / max p' 1 :=
+      Nat.div_le_div_left (by omega) (by omega)
+    generalize pen * 1000000 / max p 1 = a at *
+    generalize pen * 1000000 / max p' 1 = b at *
+    omega
+  · intro w (p : Nat) hw
+    simp only [fixAlg]
+    generalize pen * 1000000 / max p 1 = a
+    omega
+
 /-! ### Non-vacuity -/
 
 /-- A three-node line `0 —1→ 1 —2→ 2` where node 1 charges 1000 msat + 1 %, with a
@@ -144,6 +255,24 @@ example : GraphOK exGraph ∧ Reach exGraph exReq exReq.source ⟨1010500, 0, 80
   have h1 : Reach exGraph exReq 1 ⟨1011000, 11000, 800049⟩ [⟨2, 1, 2, 1000, 10000, 40, 0, 0, 100000⟩] :=
     Reach.step Reach.start (by decide) (by decide) (by decide)
   exact Reach.step h1 (by intro h; cases h) (by decide) (by decide)
+
+/-- the hypotheses of `search_sound` are satisfiable: a complete run of the main
+    loop on `exReq` (relax 1→2 with edge probability 0.95, pop node 1, relax 0→1,
+    pop the source), ending with the source popped, no wrapped weight, and the
+    reconstruction returning `exEdges`. -/
+def exCfg : SCfg := ⟨40, 1300⟩
+def exAlg : ProbAlg := fixAlg 100000 10000
+def exS1 : SState exAlg.P :=
+  relaxStep exAlg exGraph exReq exCfg (SState.init exAlg.one exReq exCfg) 1 (950000 : Nat)
+def exS2 : SState exAlg.P := popStep exReq exS1 1
+def exS3 : SState exAlg.P := relaxStep exAlg exGraph exReq exCfg exS2 0 (1000000 : Nat)
+def exS4 : SState exAlg.P := popStep exReq exS3 0
+
+example : Run exAlg exGraph exReq exCfg exS4 ∧ exS4.wrapped = false ∧ exS4.done = true ∧
+    walk exS4.D exReq.target 3 exReq.source = some exEdges := by
+  refine ⟨?_, by decide, by decide, by decide⟩
+  exact Run.pop 0 (Run.relax 0 _ (Run.pop 1 (Run.relax 1 _ Run.init (by decide)) (by decide)
+    (by decide)) (by decide)) (by decide) (by decide)
 
 /-! ### The `Fits` hypothesis is necessary (finding: fee arithmetic wraps)
 
